@@ -530,11 +530,12 @@ func init() {
 			axis := b.n.P[0]
 			b.set3(model3d.RevolveSolid(prof, m3.C3(axis)))
 			u := axis.Unit()
-			// definition: the profile evaluated at (distance from the axis, position along it)
+			// definition: the profile evaluated at (distance from the axis, position along it),
+			// computed with the library's vector operations (bit-identical to the wrapper, see ramp3)
+			lu := m3.C3(axis).Normalize()
 			b.under = func(p kit.V3) bool {
-				t := p.Dot(u)
-				rho := p.Sub(u.Scale(t)).Norm()
-				return prof.Contains(model2d.XY(rho, t))
+				c := m3.C3(p)
+				return prof.Contains(model2d.XY(c.ProjectOut(lu).Norm(), lu.Dot(c)))
 			}
 			e1, e2 := orthoPair(u)
 			for _, w := range k.wit {
@@ -815,20 +816,27 @@ func init() {
 				return
 			}
 			b.set3(&toolbox3d.Ramp{Solid: k.s3, P1: m3.C3(p1), P2: m3.C3(p2)})
-			axis := p2.Sub(p1)
 			// documented: scale grows from 0 at P1 to 1 at P2 along the axis (and stays 1 beyond
 			// P2, nothing beyond P1); the cross-section at scale s is the wrapped solid's
-			// cross-section shrunk by s about the axis
+			// cross-section shrunk by s about the axis.  The point handed to the wrapped solid is
+			// computed with the library's vector operations in the documented order, so that it is
+			// bit-identical to the wrapper's: some wrapped solids (SmoothJoinV2 next to an edge
+			// of an operand, where the reported normal is decided by rounding) change their
+			// answer between points that are 1e-16 apart.
+			lp1, lp2 := m3.C3(p1), m3.C3(p2)
 			b.under = func(p kit.V3) bool {
-				v := p.Sub(p1)
-				s := axis.Dot(v) / axis.Dot(axis)
+				axis := lp2.Sub(lp1)
+				v := m3.C3(p).Sub(lp1)
+				s := axis.Dot(v)
 				if s < 0 {
 					return false
 				}
+				norm := axis.Norm()
+				s /= norm * norm
 				if s >= 1 {
 					return k.contains(p)
 				}
-				q := v.Sub(axis.Scale(s)).Scale(1 / s).Add(axis.Scale(s)).Add(p1)
+				q := m3.V3(v.Sub(axis.Scale(s)).Scale(1 / s).Add(axis.Scale(s)).Add(lp1))
 				return q.Finite() && k.contains(q)
 			}
 			kidsWit(b)
